@@ -16,6 +16,9 @@ import (
 	"github.com/bronlabs/bron-crypto/pkg/proofs/elgamal/elcomop"
 	"github.com/bronlabs/bron-crypto/pkg/proofs/elgamal/elog"
 	"github.com/bronlabs/bron-crypto/pkg/proofs/okamoto"
+	"github.com/bronlabs/bron-crypto/pkg/base/serde"
+	"github.com/bronlabs/bron-crypto/pkg/proofs/sigma/compiler"
+	"github.com/bronlabs/bron-crypto/pkg/proofs/sigma/compiler/fiatshamir"
 	"github.com/bronlabs/bron-crypto/pkg/proofs/sigma/compose/sigand"
 	"github.com/bronlabs/bron-crypto/pkg/proofs/sigma/compose/sigor"
 
@@ -78,6 +81,42 @@ func groupCases[P curves.Point[P, F, S], F algebra.FieldElement[F], S algebra.Pr
 		w2 := must(field.Random(r))
 		x := g.ScalarOp(w)
 		c := mkCase("schnorr/"+gname, proto, rec, schnorr.NewStatement(x), schnorr.NewWitness(w), schnorr.NewStatement(g.ScalarOp(w2)), 16)
+		c.adaptive = func(r *vh.Rng, deriveNoStmt func(a []byte) []byte) ([]byte, []byte, func(cs ctxSpec) string) {
+			k, z := must(field.Random(r)), must(field.Random(r))
+			com := &schnorr.Commitment[P, S]{A: g.ScalarOp(k)}
+			e := deriveNoStmt(com.Bytes())
+			if e == nil {
+				return nil, nil, nil
+			}
+			es := must(field.FromWideBytes(e))
+			if es.IsZero() {
+				return nil, nil, nil
+			}
+			einv, err := es.TryInv()
+			if err != nil {
+				return nil, nil, nil
+			}
+			xs := schnorr.NewStatement(g.ScalarOp(z.Sub(k).Mul(einv)))
+			proof, err := serde.MarshalCBOR(&fsWire[*schnorr.Commitment[P, S], *schnorr.Response[S]]{A: com, E: e, Z: &schnorr.Response[S]{Z: z}})
+			if err != nil {
+				return nil, nil, nil
+			}
+			return proof, xs.Bytes(), func(cs ctxSpec) string {
+				ctx, err := cs.build()
+				if err != nil {
+					return "S"
+				}
+				var verr error
+				if p := vh.Safely(func() {
+					ni := must(compiler.Compile(fiatshamir.Name, proto, rec))
+					v := must(ni.NewVerifier(ctx))
+					verr = v.Verify(xs, proof)
+				}); p != "" {
+					return "P"
+				}
+				return b2i(verr == nil)
+			}
+		}
 		cases = append(cases, c)
 		lins = append(lins, schnorrLin(gname, curve, proto, rec, w, r))
 	}
